@@ -6,11 +6,12 @@ after every step the projection of every live object (fields read back, whether
 and trees are interned per trace into small ids (first occurrence order).
 
 Every trace that involves an undecorated class (one whose instances run the generated
-__eq__/__hash__ of a decorated ancestor) runs in a forked child of the worker process.
-The worker itself creates the user classes but never hashes or compares an instance of
-such a class, so every such trace starts from the pristine class state: whatever
-pymbolic remembers per class about earlier use is in its initial state, and the order
-in which a history first uses the classes is the order pymbolic sees.  Objects that "arrive from another interpreter" are built (and, if the history
+__eq__/__hash__ of a decorated ancestor) starts from the pristine class state: the user
+class hierarchy is created anew for it and, when the built-in undecorated class
+MultiVectorVariable or a subclass of it is involved, the trace runs in a forked child of
+the worker process, which itself never hashes or compares an instance of such a class.
+Whatever pymbolic remembers per class about earlier use is then in its initial state,
+and the order in which a history first uses the classes is the order pymbolic sees.  Objects that "arrive from another interpreter" are built (and, if the history
 says so, hashed) and pickled by a helper interpreter running with a different
 PYTHONHASHSEED, and unpickled here.
 Nothing in here judges anything."""
@@ -456,12 +457,16 @@ def _foreign_blob(spec, md):
     return key, _BLOBS[key]
 
 
-def _drive_inproc(case, blobs):
+def _drive_inproc(case, blobs, fresh):
+    global _CLS
     tr = _Trace()
     tr.blobs = blobs
     evs = []
     with warnings.catch_warnings():
         warnings.simplefilter("ignore")
+        if fresh:
+            _CLS = None     # brand-new user classes: nothing has ever run on them
+            _classes()
         for ev in case["hist"]:
             r = _step(tr, ev)
             r["proj"] = tr.proj()
@@ -483,25 +488,34 @@ def _mentions(v, names):
     return False
 
 
+# ... of which these cannot be re-created by the driver
+BUILTIN_UNDECORATED = {"MultiVectorVariable", "UMVTag"}
+
+
 def drive_case(case, extra):
     """case = {"id", "sweep", "hist": [events]} -> recorded trace.  A history that
-    touches an undecorated class anywhere runs in a forked child, so that the worker
-    never uses such a class itself and every such history starts from the pristine
-    class state (a fork per trace for *all* histories costs minutes on a busy machine)."""
+    touches an undecorated class anywhere starts from the pristine class state: the
+    user hierarchy is created anew for it, and if a built-in undecorated class (or a
+    subclass of one) is involved it runs in a forked child of the worker, which itself
+    never uses such a class.  (A fork per trace for *all* histories costs minutes on a
+    busy machine.)"""
     with warnings.catch_warnings():
         warnings.simplefilter("ignore")
         _classes()      # an import error of pymbolic is a machinery failure, not an observation
     blobs = dict(_foreign_blob(ev["spec"], ev["md"])
                  for ev in case["hist"] if ev["op"] == "New" and ev["md"])
-    if not any(ev["op"] == "New" and _mentions(ev["spec"], UNDECORATED) for ev in case["hist"]):
-        return _drive_inproc(case, blobs)
+    specs = [ev["spec"] for ev in case["hist"] if ev["op"] == "New"]
+    if not _mentions(specs, UNDECORATED):
+        return _drive_inproc(case, blobs, False)
+    if not _mentions(specs, BUILTIN_UNDECORATED):
+        return _drive_inproc(case, blobs, True)
     rfd, wfd = os.pipe()
     pid = os.fork()
     if pid == 0:
         code = 1
         try:
             os.close(rfd)
-            data = json.dumps(_drive_inproc(case, blobs)).encode()
+            data = json.dumps(_drive_inproc(case, blobs, True)).encode()
             with os.fdopen(wfd, "wb") as f:
                 f.write(data)
             code = 0
